@@ -314,6 +314,57 @@ fn gated_scn(skip: bool, trigger_thread: bool, q: Option<u32>, t: Option<u32>) -
   })
 }
 
+/// to_vec over a *hot* source (a Subject): the future is created first, then a producer thread pushes
+/// while the main thread polls - whatever the order of the first poll and the pushes, the future collects
+/// everything pushed after `to_vec()` returned
+fn hot_scn(fails: bool, q: Option<u32>, t: Option<u32>) -> Scn {
+  let name = format!("c18/Subject.to_vec() created, then a producer thread pushes P(n1,n2,{}) while main polls", if fails { "E7" } else { "C" });
+  scn(&name, "to_vec", q, t, move || {
+    let out: Arc<Mutex<Option<Result<Vec<i64>, i64>>>> = Arc::new(Mutex::new(None));
+    let out2 = out.clone();
+    let body: Body = Box::new(move || {
+      let sbj = subjects::Subject::<i64>::new();
+      let o = sbj.observable();
+      let fut = o.to_vec();
+      let s2 = sbj.clone();
+      let h = thread::spawn(move || {
+        s2.next(1);
+        s2.next(2);
+        if fails {
+          s2.error(err(7));
+        } else {
+          s2.complete();
+        }
+      });
+      let (r, _, _) = block_on(fut, 0);
+      *out2.lock().unwrap() = Some(match r {
+        Ok(v) => Ok(v.read().unwrap().clone()),
+        Err(e) => Err(err_code(&e)),
+      });
+      let _ = h.join();
+    });
+    let check: Check = Box::new(move |e: &ExecEnd| {
+      let mut v = base_violations(e, &[]);
+      let o = out.lock().unwrap();
+      let want: Result<Vec<i64>, i64> = if fails { Err(7) } else { Ok(vec![1, 2]) };
+      match &*o {
+        None => {
+          if v.is_empty() {
+            v.push(viol("future-never-ready", format!("block_on did not return although the subject has terminated; threads {}", thread_summary(e))));
+          }
+        }
+        Some(r) => {
+          if *r != want {
+            v.push(viol("wrong-result", format!("to_vec yielded {:?}, want {:?}", r, want)));
+          }
+        }
+      }
+      Verdict { outcome: format!("{:?}", *o), violations: v }
+    });
+    (body, check)
+  })
+}
+
 pub fn scenarios() -> Vec<Scn> {
   use Emit::*;
   vec![
@@ -326,6 +377,8 @@ pub fn scenarios() -> Vec<Scn> {
     tovec_scn_x(vec![N(1), E(7)], false, 2, Some(2), Some(4)),
     tovec_scn_y(vec![N(1), C], false, 0, true, Some(2), Some(4)),
     merged_scn(Some(2), Some(3)),
+    hot_scn(false, Some(2), Some(4)),
+    hot_scn(true, Some(2), Some(4)),
     gated_scn(true, false, Some(2), Some(4)),
     gated_scn(true, true, Some(2), Some(3)),
     gated_scn(false, false, Some(2), Some(4)),
